@@ -16,11 +16,12 @@ Theorem C02_scheme_verify_sound : forall (members : list rid) (sch : scheme) (s 
 Proof. exact scheme_verify_sound. Qed.
 Print Assumptions C02_scheme_verify_sound.
 
-(* QC: accepted => genesis QC (view 0) or a quorum of distinct replicas signed exactly the stored
+(* QC: accepted => genesis QC (genesis hash, view 0 and NO signature: nobody signs genesis, so an
+   accepted genesis certificate names no signers) or a quorum of distinct replicas signed exactly the stored
    block whose view is the view the QC claims *)
 Theorem C02_qc_sound : forall (c : cfg) (st : store) (q : qc),
   verify_qc c st q = Ok tt ->
-  (qc_hash q = c_genesis c /\ qc_view q = 0%N) \/
+  (qc_hash q = c_genesis c /\ qc_view q = 0%N /\ qc_sig q = None) \/
   exists s b, qc_sig q = Some s /\ st (qc_hash q) = Some b /\ bi_view b = qc_view q /\
     exists S : list rid, NoDup S /\ (qsize c <= length S)%nat /\ incl S (c_replicas c) /\
                          forall i, In i S -> genuine s i (MBlock (bi_hash b)).
@@ -112,7 +113,7 @@ Print Assumptions C02_usable_keys.
 
 Theorem C02_qc_sound_pop : forall (c : cfg) (x : vctx) (st : store) (q : qc),
   verify_qc_p c x st q = Ok tt ->
-  (qc_hash q = c_genesis c /\ qc_view q = 0%N) \/
+  (qc_hash q = c_genesis c /\ qc_view q = 0%N /\ qc_sig q = None) \/
   exists s b, qc_sig q = Some s /\ st (qc_hash q) = Some b /\ bi_view b = qc_view q /\
     exists S : list rid, NoDup S /\ (qsize c <= length S)%nat /\ incl S (usable c x) /\
                          forall i, In i S -> genuine s i (MBlock (bi_hash b)).
